@@ -173,15 +173,20 @@ def run_exec(spec):
     base = STATE["scratch"]
     exec_dir = tempfile.mkdtemp(prefix="x-", dir=base)
     dll_dir = os.path.join(exec_dir, "dll")      # deliberately not created: first use creates it
-    tmp_dir = os.path.join(exec_dir, "tmp")
-    os.makedirs(tmp_dir)
+    if spec.get("tmpdev") == "shm":
+        # the system temporary directory on ANOTHER device than the cache: a move across them is a copy
+        tmp_dir = tempfile.mkdtemp(prefix="verif-c18-", dir="/dev/shm")
+    else:
+        tmp_dir = os.path.join(exec_dir, "tmp")
+        os.makedirs(tmp_dir)
+    finals = sorted(ref["libs"])
     watch = [dll_dir, tmp_dir]
     body = _body_factory(model, dll_dir, tmp_dir)
     fails = []
     out = {"spec": spec}
     try:
         kill = tuple(spec["kill"]) if spec.get("kill") else None
-        ph1 = procsched.run_phase(body, spec["n1"], spec.get("prefix1", []), exec_dir, watch, kill=kill)
+        ph1 = procsched.run_phase(body, spec["n1"], spec.get("prefix1", []), exec_dir, watch, kill=kill, finals=finals)
         out["p1"] = ph1.pack()
         victims = ph1.killed_at["victims"] if ph1.killed_at else []
         cc_victim = ph1.killed_at.get("compiler_of") if ph1.killed_at else None
@@ -202,7 +207,7 @@ def run_exec(spec):
             fails.append(("partial-under-final-name", "after phase 1%s: %s" % (" (kill at %r)" % (ph1.killed_at,) if ph1.killed_at else "", b)))
         out["leftovers1"] = left
         if spec.get("n2"):
-            ph2 = procsched.run_phase(body, spec["n2"], spec.get("prefix2", []), exec_dir, watch, id_base=10)
+            ph2 = procsched.run_phase(body, spec["n2"], spec.get("prefix2", []), exec_dir, watch, id_base=10, finals=finals)
             out["p2"] = ph2.pack()
             _judge_phase(ph2, ref, range(10, 10 + spec["n2"]), "recovery after kill at %r" % (ph1.killed_at,), fails)
             bad, left = _scan(dll_dir, ref)
@@ -211,11 +216,22 @@ def run_exec(spec):
             out["leftovers2"] = left
     finally:
         shutil.rmtree(exec_dir, ignore_errors=True)
+        if spec.get("tmpdev") == "shm":
+            shutil.rmtree(tmp_dir, ignore_errors=True)
+    # structural rule: a final cache name must only ever appear through an atomic rename/link of a complete
+    # file; opening it for writing (python or compiler) means a partially written library exists under it
+    for key in ("p1", "p2"):
+        for i, ev in (out.get(key) or {}).get("trace", []):
+            if ev.endswith("!") and (ev.startswith("open-w") or ev.startswith("cc.write")):
+                fails.append(("final-name-written-in-place",
+                              "process %d performs %r on a final cache name: the library is written in place, not "
+                              "installed atomically" % (i, ev)))
+                break
     out["fails"] = fails
     return out
 
 
-def _explore_tree(ctx, report, make_spec, bound, label, phase_key="p1", prefix_key="prefix1", cap=None):
+def _explore_tree(ctx, report, make_spec, bound, label, phase_key="p1", prefix_key="prefix1", cap=None, shared_only=False):
     """wave-parallel enumeration of every schedule up to the preemption bound for one spec family"""
     frontier = [[]]
     n_exec = 0
@@ -246,7 +262,7 @@ def _explore_tree(ctx, report, make_spec, bound, label, phase_key="p1", prefix_k
             npre = procsched.preemptions(ph["points"], ph["choices"])
             by_pre[npre] = by_pre.get(npre, 0) + 1
             _record(report, spec, payload["fails"], payload, label)
-            for alt in procsched.alternatives(ph["points"], ph["choices"], len(pre), bound):
+            for alt in procsched.alternatives(ph["points"], ph["choices"], len(pre), bound, shared_only=shared_only):
                 nxt.append(alt)
         frontier = nxt
     report.coverage.setdefault("schedules_by_family", {})[label] = {
@@ -319,6 +335,18 @@ def explore(ctx):
             _explore_tree(ctx, report, lambda p: {"model": "sphere", "n1": 16, "prefix1": p, "kill": None, "n2": 0},
                           1, "sched:sphere:n16:b1", cap=600)
 
+        # reduced exploration: unbounded preemptions, but a running thread is only preempted before an operation on
+        # a shared object (cache lookup, mkdir, rename/replace, removal of a library, dlopen, anything on a final name)
+        for n in ((2,) if quick else (2, 3)):
+            _explore_tree(ctx, report, lambda p, n=n, model=model: {"model": model, "n1": n, "prefix1": p, "kill": None, "n2": 0},
+                          99, "por:%s:n%d" % (model, n), shared_only=True, cap=4000)
+        # temporary directory on another device than the cache (a "move" across devices is a copy)
+        if os.path.isdir("/dev/shm") and os.stat("/dev/shm").st_dev != os.stat(ctx.scratch).st_dev:
+            _explore_tree(ctx, report, lambda p, model=model: {"model": model, "n1": 2, "prefix1": p, "kill": None, "n2": 0, "tmpdev": "shm"},
+                          1, "shm:%s:n2:b1" % model)
+            report.coverage["tmp_on_other_device"] = True
+        else:
+            report.coverage["tmp_on_other_device"] = "not available in this environment"
         # kill points of a single builder: find its number of points, then every k x recovery
         probe = run_exec({"model": model, "n1": 1, "prefix1": [], "kill": None, "n2": 0})
         npoints = len(probe["p1"]["trace"])
